@@ -934,6 +934,18 @@ def normalize(e):
         return p.Power(normalize(e.base), normalize(e.exponent))
     if isinstance(e, CSE):
         return CSE(normalize(e.child), e.prefix, e.scope)
+    # the other composite nodes: only their operands are normalised (so that `(b | 8)**1 < 1` is
+    # named like `b | 8 < 1`, the text the C printer really emits for it)
+    if isinstance(e, p.Comparison):
+        return p.Comparison(normalize(e.left), e.operator, normalize(e.right))
+    if isinstance(e, p.If):
+        return p.If(normalize(e.condition), normalize(e.then), normalize(e.else_))
+    if isinstance(e, (p.BitwiseOr, p.BitwiseAnd, p.BitwiseXor, p.LogicalAnd, p.LogicalOr, p.Min, p.Max)):
+        return type(e)(tuple(normalize(c) for c in e.children))
+    if isinstance(e, (p.BitwiseNot, p.LogicalNot)):
+        return type(e)(normalize(e.child))
+    if isinstance(e, (p.LeftShift, p.RightShift)):
+        return type(e)(normalize(e.shiftee), normalize(e.shift))
     return e
 
 
